@@ -2,6 +2,7 @@
 
 import ast
 import json
+import operator as _o
 import os
 
 from report import AnalysisError, VERIF
@@ -12,19 +13,27 @@ from layout import Enc, Dec, bitfields, byte_ref, fold_field
 import exprnf as X
 
 EXPLANATION = (
-    "The layout descriptors extracted from data_msg.py by byte-layout abstract "
-    "interpretation (see C01) are compared with the reference layout "
-    "spec/trxd.json (catches symmetric errors a self round trip cannot see); the "
-    "MTS octet and the soft-bit tables are folded against the reference; "
-    "trxcon's receive and transmit paths are read from the clang AST of "
-    "trx_if.c: field <- octet expressions of the burst indication, header "
-    "length, version test, accepted payload lengths, soft-bit conversion folded "
-    "over all 256 octet values and compared entry by entry with Python's table, "
-    "FN bound, dominance of every buffer read by the length checks, transmit "
-    "stores, and mutual buffer-size sufficiency.")
+    "Three rule groups, each decided semantically and documented by a structural proof. Decision: the code is "
+    "evaluated from its source (never executed): data_msg.py's gen_msg()/parse_msg() by the concrete AST "
+    "interpreter of rules/c16.py, trxcon's trx_data_rx_cb() / trx_if_handle_phyif_burst_req() by a closure "
+    "compiler over the clang AST of trx_if.c (C integer semantics per node type, octet memory, pointers, local "
+    "helpers, file-scope constant tables, goto). They are run on message / datagram families that are exhaustive "
+    "along every finite axis of the layout (all 256 values of every header octet, every datagram length up to the "
+    "buffer size, all 256 soft-bit octets at each of the 148 burst positions, all timeslots, attenuations, "
+    "MTS combinations, sign-boundary grids of ToA256/C/I, frame-number octet walks and the hyperframe boundary) and "
+    "every result (octets sent, fields and soft bits handed on, accept/reject) is compared with the reference "
+    "layout spec/trxd.json and the toolkit's own usbit2sbit map read off parse_msg(); a mismatch is reported with "
+    "the concrete datagram. Structural proofs (Ledger.structural): the layout descriptors extracted from "
+    "data_msg.py by byte-layout abstract interpretation (see C01) compared with the reference layout, the MTS and "
+    "soft-bit tables folded, trxcon's field <- octet expressions, guards, soft-bit loop body folded over all 256 "
+    "octets (incl. constant look-up tables), FN guard and transmit stores read from the clang AST; they hold for "
+    "all inputs when closed and never raise an alarm by themselves (an unfamiliar but correct shape leaves them "
+    "open). If the code cannot be evaluated, a closed structural proof decides; otherwise there is no verdict.")
 ASSUMPTIONS = [
-    "osmo_load32be(p) / osmo_store32be(v, p): 32-bit big-endian load/store at p; memcpy(d, s, n) writes d[0..n-1]",
-    "numeric equality of decoded values for every message is not enumerated; the field<-octet expressions are compared",
+    "osmo_load32be/16be(p), osmo_store32be/16be(v, p): big-endian load/store at p; memcpy/memmove/memset as in ISO C; read/recv/recvfrom deliver min(datagram length, capacity) octets; send/sendto/write emit the given octets",
+    "external functions without a body in trx_if.c (logging, strerror_r, the rts indication) do not modify the local buffer or the burst indication",
+    "a branch whose condition does not depend on the datagram (trx state) is skipped only if neither arm can touch local objects (no jump, stores only into objects reached through struct pointers / file-scope variables)",
+    "the families are exhaustive per octet / per axis, not over the product of all axes; independence of the axes is what the structural proofs show when closed",
 ]
 F = rel("data_msg")
 FMT = {"u8": "B", "be_u32": ">L", "be_i16": ">h"}
@@ -166,13 +175,1679 @@ def r1_python_vs_spec(L, repo, spec):
     return us2s
 
 
-def r2_r3_trxcon(L, repo, spec, us2s):
-    from cfront import (TU, CCFG, kids, kind, strip, walk, ctext, calls_to, call_args, CLower, fold_env,
-                        array_extent, expr_guards)
-    tu = TU(L.repo, "trxcon", "src/trx_if.c", L=L)
+from cfront import (TU, CCFG, kids, kind, strip, walk, ctext, calls_to, call_args, CLower, fold_env,
+                    array_extent, wrap_int)
+
+
+# ---------------------------------------------------------------------------------------------
+# Concrete evaluation of trxcon's TRXD paths (no execution of repository code: the clang AST of
+# the function is compiled into Python closures and evaluated on one datagram at a time).
+# Integer values are Python ints wrapped to the C type at every cast / store, pointers are
+# ("ptr", base, offset), the address of a struct object is ("ref", key, frame), a value that
+# cannot be determined is None (it propagates; a branch on it is an AnalysisError unless both
+# arms cannot influence the decoded values).
+# ---------------------------------------------------------------------------------------------
+_ITYPES = {
+    "char": (8, True), "signed char": (8, True), "unsigned char": (8, False), "int8_t": (8, True), "uint8_t": (8, False),
+    "sbit_t": (8, True), "ubit_t": (8, False), "short": (16, True), "unsigned short": (16, False), "int16_t": (16, True),
+    "uint16_t": (16, False), "int": (32, True), "unsigned int": (32, False), "unsigned": (32, False), "int32_t": (32, True),
+    "uint32_t": (32, False), "long": (64, True), "unsigned long": (64, False), "long long": (64, True),
+    "unsigned long long": (64, False), "int64_t": (64, True), "uint64_t": (64, False), "ssize_t": (64, True),
+    "size_t": (64, False), "__ssize_t": (64, True),
+}
+_MISSING = object()
+_UNKNOWN = "?"
+_BRK, _CNT = "break", "continue"
+
+
+def _qt(n):
+    t = n.get("type") or {}
+    return t.get("desugaredQualType") or t.get("qualType") or ""
+
+
+def _clean(qt):
+    return " ".join(w for w in qt.replace("*", " * ").split() if w not in ("const", "volatile", "restrict", "__restrict"))
+
+
+def _wrapper(qt):
+    q = _clean(qt)
+    if q == "_Bool":
+        return lambda v: int(v != 0)
+    m = _ITYPES.get(q)
+    if m is None:
+        return None
+    bits, signed = m
+    mask, half, full = (1 << bits) - 1, 1 << (bits - 1), 1 << bits
+    if signed:
+        def w(v):
+            v &= mask
+            return v - full if v >= half else v
+        return w
+    return lambda v: v & mask
+
+
+def _tsize(qt):
+    q = _clean(qt)
+    if q.endswith("*"):
+        return 8
+    if q in ("void", "_Bool"):
+        return 1
+    m = _ITYPES.get(q)
+    return m[0] // 8 if m else None
+
+
+def _pointee(qt):
+    q = _clean(qt)
+    if q.endswith("*"):
+        return q[:-1].strip()
+    import re
+    m = re.fullmatch(r"(.+?)\s*\[\d*\](.*)", q)
+    if m:
+        return (m.group(1) + m.group(2)).strip()
+    return None
+
+
+def _init_elems(tu, il):
+    """integer elements of an array initialiser list in index order (clang's JSON lists them under `array_filler`,
+    after the filler itself, when the list is shorter than the array; the tail is zero); None if one does not fold"""
+    els = il.get("array_filler")
+    els = [c for c in els[1:] if c] if els else kids(il)
+    out = []
+    for c in els:
+        if kind(strip(c)) == "ImplicitValueInitExpr":
+            out.append(0)
+            continue
+        v = tu.fold(c)
+        if v is None:
+            return None
+        out.append(v)
+    return out
+
+
+def _isptr(v):
+    return type(v) is tuple and v[0] == "ptr"
+
+
+class _Goto(Exception):
+    def __init__(self, label):
+        self.label = label
+
+
+class CDone(Exception):
+    """raised by a hook to end a run at the observation point"""
+
+
+class CState:
+    def __init__(self):
+        self.env = {}       # current frame: locals by name, struct members by `obj.member` / `ptr->member` text
+        self.mem = {}       # arrays: base -> list of octets (element size 1) or of typed values; None = never written
+        self.esz = {}       # base -> element size
+        self.faults = []    # ("undef" | "oob", base, offset)
+        self.steps = 0
+        self.depth = 0
+        self.out = {}
+
+
+class CMach:
+    def __init__(self, tu, hooks=None, max_steps=60000):
+        self.tu, self.hooks, self.max_steps = tu, hooks or {}, max_steps
+        self.watch = ()     # struct types whose objects carry the decoded values
+        self._x, self._s, self._loc, self._tabs, self._inert = {}, {}, {}, {}, {}
+
+    # -- memory -----------------------------------------------------------------------------
+    def table(self, name):
+        """file-scope const array with an initialiser list: its typed values"""
+        if name not in self._tabs:
+            t = None
+            d = self.tu.vars.get(name)
+            if d is not None and "const" in (d.get("type") or {}).get("qualType", "") and kids(d):
+                il = strip(kids(d)[-1])
+                ext = array_extent((d.get("type") or {}).get("qualType"))
+                el = _pointee(_qt(d))
+                w = _wrapper(el or "")
+                if kind(il) == "InitListExpr" and ext is not None and w is not None:
+                    vals = _init_elems(self.tu, il)
+                    if vals is not None and len(vals) <= ext:
+                        t = ([w(v) for v in vals] + [0] * (ext - len(vals)), _tsize(el))
+            self._tabs[name] = t
+        return self._tabs[name]
+
+    def padd(self, st, p, i, ps):
+        if not _isptr(p) or not isinstance(i, int) or ps is None:
+            return None
+        esz = st.esz.get(p[1])
+        if esz is None:
+            t = self.table(p[1])
+            esz = t[1] if t else 1
+        if ps % esz:
+            return None
+        return ("ptr", p[1], p[2] + i * (ps // esz))
+
+    def load(self, st, p, w, size):
+        if not _isptr(p):
+            return None
+        base, off = p[1], p[2]
+        m = st.mem.get(base)
+        if m is None:
+            t = self.table(base)
+            if t is None or t[1] != size:
+                return None
+            if 0 <= off < len(t[0]):
+                return t[0][off]
+            st.faults.append(("oob", base, off))
+            return None
+        if not 0 <= off < len(m):
+            st.faults.append(("oob", base, off))
+            return None
+        if st.esz[base] != size:
+            if st.esz[base] == 1 and size in (2, 4, 8) and w is not None:
+                # wider access to octet memory: little-endian, the byte order of the translation unit's target (x86-64 host build)
+                r = 0
+                for i in range(size):
+                    b = self.load(st, ("ptr", base, off + i), None, 1)
+                    if b is None:
+                        return None
+                    r |= b << (8 * i)
+                return w(r)
+            return None
+        v = m[off]
+        if v is _UNKNOWN:
+            return None
+        if v is None:
+            st.faults.append(("undef", base, off))
+            v = 0
+        if size == 1 and w is not None:
+            return w(v)
+        return v
+
+    def store(self, st, p, v, w, size):
+        if not _isptr(p):
+            return
+        base, off = p[1], p[2]
+        m = st.mem.get(base)
+        if m is None:
+            if self.table(base) is not None:
+                raise AnalysisError("C evaluation: store into the constant table %s" % base)
+            return
+        if not 0 <= off < len(m):
+            st.faults.append(("oob", base, off))
+            return
+        if st.esz[base] != size:
+            if st.esz[base] == 1 and size in (2, 4, 8):
+                for i in range(size):
+                    self.store(st, ("ptr", base, off + i), (v >> (8 * i)) & 0xff if isinstance(v, int) else None, None, 1)
+                return
+            raise AnalysisError("C evaluation: %d-octet store into %s (element size %d) is not modelled" % (size or 0, base, st.esz[base]))
+        if not isinstance(v, int):
+            m[off] = _UNKNOWN          # written, but with a value the evaluation does not determine
+        else:
+            m[off] = (v & 0xff) if size == 1 else (w(v) if w else v)
+
+    def octets(self, st, p, n):
+        """the n raw octets at p (None where never written / outside the array)"""
+        if not _isptr(p) or not isinstance(n, int) or st.mem.get(p[1]) is None or st.esz[p[1]] != 1:
+            return None
+        m = st.mem[p[1]]
+        return [m[i] if 0 <= i < len(m) else None for i in range(p[2], p[2] + n)]
+
+    # -- expressions ------------------------------------------------------------------------
+    def X(self, n):
+        f = self._x.get(id(n))
+        if f is None:
+            f = self._x[id(n)] = self._cx(n)
+        return f
+
+    def _is_array(self, n):
+        return _clean((n.get("type") or {}).get("qualType", "")).endswith("]")
+
+    def _decay(self, n):
+        while kind(n) in ("ParenExpr",):
+            n = kids(n)[0]
+        k = kind(n)
+        if k == "DeclRefExpr":
+            rd = n.get("referencedDecl", {})
+            name = rd.get("name")
+            d = self.tu.by_id.get(rd.get("id"))
+            local = d is not None and kind(self.tu.parent.get(id(d)) or {}) == "DeclStmt"
+            if local:
+                return lambda st: ("ptr", name if st.depth == 0 else "%s@%d" % (name, st.depth), 0)
+            qt = (n.get("type") or {}).get("qualType", "")
+            ext, esz = array_extent(qt), _tsize(_pointee(_qt(n)) or "")
+            if "const" not in qt and ext is not None and esz is not None:
+                # a file-scope (static) buffer: what an earlier call left in it is not part of this datagram
+                def f(st):
+                    if name not in st.mem:
+                        st.mem[name], st.esz[name] = [None] * ext, esz
+                    return ("ptr", name, 0)
+                return f
+            return lambda st: ("ptr", name, 0)
+        if k == "MemberExpr":
+            loc = self.LOC(n)
+            qt = (n.get("type") or {}).get("qualType", "")
+            ext, esz = array_extent(qt), _tsize(_pointee(_qt(n)) or "")
+
+            def f(st):
+                l_ = loc(st)
+                if l_ is None or l_[0] != "env":
+                    return None
+                key = l_[2] if l_[1] is st.env else "%s@%x" % (l_[2], id(l_[1]))
+                if key not in st.mem and ext is not None and esz is not None:
+                    st.mem[key], st.esz[key] = [None] * ext, esz      # a buffer that is a struct member (e.g. trx->rx_buf)
+                return ("ptr", key, 0)
+            return f
+        return lambda st: None
+
+    def LOC(self, n):
+        f = self._loc.get(id(n))
+        if f is None:
+            f = self._loc[id(n)] = self._cloc(n)
+        return f
+
+    def _cloc(self, n):
+        """lvalue -> function(st) -> ("env", frame, key) | ("mem", pointer) | None"""
+        while kind(n) in ("ParenExpr",):
+            n = kids(n)[0]
+        k = kind(n)
+        if k == "DeclRefExpr":
+            name = n.get("referencedDecl", {}).get("name")
+            return lambda st: ("env", st.env, name)
+        if k == "MemberExpr":
+            fld, base, txt = n.get("name"), kids(n)[0], ctext(n)
+            if n.get("isArrow"):
+                fb = self.X(base)
+
+                def f(st):
+                    b = fb(st)
+                    if isinstance(b, tuple) and b[0] == "ref":
+                        return ("env", b[2], "%s.%s" % (b[1], fld))
+                    return ("env", st.env, txt)
+                return f
+            lb = self.LOC(base)
+
+            def f(st):
+                l_ = lb(st)
+                if l_ is not None and l_[0] == "env":
+                    return ("env", l_[1], "%s.%s" % (l_[2], fld))
+                return ("env", st.env, txt)
+            return f
+        if k == "ArraySubscriptExpr":
+            a, b = kids(n)
+            fa, fb = self.X(a), self.X(b)
+            ps = _tsize(_qt(n))
+
+            def f(st):
+                p, i = fa(st), fb(st)
+                if isinstance(p, int) and _isptr(i):
+                    p, i = i, p
+                q = self.padd(st, p, i, ps)
+                return None if q is None else ("mem", q)
+            return f
+        if k == "UnaryOperator" and n.get("opcode") == "*":
+            fp = self.X(kids(n)[0])
+
+            def f(st):
+                p = fp(st)
+                if type(p) is tuple and p[0] == "ref":
+                    return ("env", p[2], p[1])
+                return ("mem", p) if _isptr(p) else None
+            return f
+        if k in ("ImplicitCastExpr", "CStyleCastExpr") and n.get("castKind") in ("NoOp", "LValueBitCast"):
+            return self.LOC(kids(n)[0])
+        return lambda st: None
+
+    def _getter(self, n):
+        loc = self.LOC(n)
+        w, size = _wrapper(_qt(n)), _tsize(_qt(n))
+        cv = self.tu.fold(n) if kind(n) == "DeclRefExpr" else None
+        if _clean(_qt(n)).startswith("struct ") and not _clean(_qt(n)).endswith("*"):
+            try:                                  # the value of a struct object: its members
+                fnames = [nm for nm, _ in self.tu.record_fields(_clean(_qt(n))[len("struct "):])]
+            except AnalysisError:
+                return lambda st: None
+
+            def gs(st):
+                l_ = loc(st)
+                if l_ is None or l_[0] != "env":
+                    return None
+                return ("struct", {f_: l_[1].get("%s.%s" % (l_[2], f_)) for f_ in fnames})
+            return gs
+        n1 = n
+        while kind(n1) == "ParenExpr":
+            n1 = kids(n1)[0]
+        if kind(n1) == "DeclRefExpr":            # fast paths (same meaning as the generic getter below)
+            name = n1.get("referencedDecl", {}).get("name")
+
+            def g0(st):
+                v = st.env.get(name, _MISSING)
+                return cv if v is _MISSING else v
+            return g0
+        if kind(n1) == "MemberExpr" and not n1.get("isArrow") and kind(strip(kids(n1)[0])) == "DeclRefExpr" and \
+                strip(kids(n1)[0]) is kids(n1)[0]:
+            key = "%s.%s" % (kids(n1)[0].get("referencedDecl", {}).get("name"), n1.get("name"))
+            return lambda st: st.env.get(key)
+        if kind(n1) == "ArraySubscriptExpr":
+            fa, fb = self.X(kids(n1)[0]), self.X(kids(n1)[1])
+            load, padd = self.load, self.padd
+
+            def g1(st):
+                p, i = fa(st), fb(st)
+                if type(p) is int and _isptr(i):
+                    p, i = i, p
+                q = padd(st, p, i, size)
+                return None if q is None else load(st, q, w, size)
+            return g1
+
+        def g(st):
+            l_ = loc(st)
+            if l_ is None:
+                return None
+            if l_[0] == "env":
+                v = l_[1].get(l_[2], _MISSING)
+                if v is _MISSING:
+                    return cv
+                return v
+            return self.load(st, l_[1], w, size)
+        return g
+
+    def _lvalue(self, n):
+        """(locate(st) -> l, read(st, l) -> value, write(st, l, v) -> value stored): an lvalue is located exactly once
+        per evaluation (its sub-expressions may have side effects: `*p++ = x`, `burst[k++] = s`)"""
+        loc = self.LOC(n)
+        w, size = _wrapper(_qt(n)), _tsize(_qt(n))
+        cv = self.tu.fold(n) if kind(n) == "DeclRefExpr" else None
+
+        def read(st, l_):
+            if l_ is None:
+                return None
+            if l_[0] == "env":
+                v = l_[1].get(l_[2], _MISSING)
+                return cv if v is _MISSING else v
+            return self.load(st, l_[1], w, size)
+
+        def write(st, l_, v):
+            if l_ is None:
+                return v
+            if l_[0] == "env":
+                fr, key = l_[1], l_[2]
+                if isinstance(v, tuple) and v and v[0] == "struct":
+                    for f_, x in v[1].items():
+                        fr["%s.%s" % (key, f_)] = x
+                    return v
+                if w is not None and isinstance(v, int):
+                    v = w(v)
+                fr[key] = v
+                return v
+            self.store(st, l_[1], v, w, size)
+            if isinstance(v, int) and w is not None:
+                return w(v)
+            return v
+        return loc, read, write
+
+    def _struct_value(self, il, qt):
+        """InitListExpr of a struct type -> ("struct", {field: value})"""
+        q = _clean(qt)
+        name = q[len("struct "):] if q.startswith("struct ") else q
+        try:
+            flds = self.tu.record_fields(name)
+        except AnalysisError:
+            return lambda st: None
+        parts = []
+        for (fn_, ft), c in zip(flds, kids(il)):
+            parts.append((fn_, self.X(c) if kind(c) != "ImplicitValueInitExpr" else (lambda st: 0)))
+        return lambda st: ("struct", {fn_: f(st) for fn_, f in parts})
+
+    def _cx(self, n):
+        k = kind(n)
+        ks = kids(n)
+        if k in ("ParenExpr", "ConstantExpr", "OpaqueValueExpr") and ks:
+            return self.X(ks[0])
+        if k in ("IntegerLiteral", "CharacterLiteral"):
+            v = int(n["value"])
+            return lambda st: v
+        if k in ("ImplicitCastExpr", "CStyleCastExpr"):
+            ck = n.get("castKind")
+            if ck == "ArrayToPointerDecay":
+                return self._decay(ks[0])
+            f = self.X(ks[0])
+            if ck == "IntegralCast":
+                w = _wrapper(_qt(n))
+                if w is None:
+                    return f
+                return lambda st: (lambda v: w(v) if isinstance(v, int) else v)(f(st))
+            if ck in ("IntegralToBoolean", "PointerToBoolean"):
+                return lambda st: (lambda v: None if v is None else int(bool(v)))(f(st))
+            if ck == "NullToPointer":
+                return lambda st: 0
+            return f
+        if k == "DeclRefExpr":
+            rd = n.get("referencedDecl", {})
+            if rd.get("kind") == "EnumConstantDecl":
+                v = self.tu.enums.get(rd.get("name"))
+                return lambda st: v
+            if rd.get("kind") == "FunctionDecl":
+                return lambda st: None
+            if self._is_array(n):
+                return self._decay(n)
+            return self._getter(n)
+        if k == "MemberExpr":
+            if self._is_array(n):
+                return self._decay(n)
+            return self._getter(n)
+        if k == "ArraySubscriptExpr":
+            return self._getter(n)
+        if k == "UnaryExprOrTypeTraitExpr":
+            v = self.tu.fold(n)
+            return lambda st: v
+        if k == "UnaryOperator":
+            op = n.get("opcode")
+            if op == "&":
+                loc = self.LOC(ks[0])
+
+                def f(st):
+                    l_ = loc(st)
+                    if l_ is None:
+                        return None
+                    return ("ref", l_[2], l_[1]) if l_[0] == "env" else l_[1]
+                return f
+            if op == "*":
+                return self._getter(n)
+            if op in ("++", "--"):
+                loc, rd, wr = self._lvalue(ks[0])
+                d = 1 if op == "++" else -1
+                post = n.get("isPostfix")
+                ps = _tsize(_pointee(_qt(n)) or "") if _clean(_qt(n)).endswith("*") else None
+
+                def f(st):
+                    l_ = loc(st)
+                    v = rd(st, l_)
+                    nv = self.padd(st, v, d, ps) if _isptr(v) else (v + d if isinstance(v, int) else None)
+                    nv = wr(st, l_, nv)
+                    return v if post else nv
+                return f
+            f0 = self.X(ks[0])
+            w = _wrapper(_qt(n))
+            fn_ = {"-": lambda v: -v, "+": lambda v: v, "~": lambda v: ~v, "!": lambda v: int(not v)}.get(op)
+            if fn_ is None:
+                return lambda st: None
+
+            def f(st):
+                v = f0(st)
+                if op == "!" and v is not None:
+                    return int(not v)
+                if not isinstance(v, int):
+                    return None
+                r = fn_(v)
+                return w(r) if w else r
+            return f
+        if k == "BinaryOperator":
+            return self._cbin(n)
+        if k == "CompoundAssignOperator":
+            op = n.get("opcode")[:-1]
+            loc, rd, wr = self._lvalue(ks[0])
+            fr = self.X(ks[1])
+            ct = (n.get("computeResultType") or {})
+            wc = _wrapper(ct.get("desugaredQualType") or ct.get("qualType") or "")
+            ps = _tsize(_pointee(_qt(ks[0])) or "") if _clean(_qt(ks[0])).endswith("*") else None
+
+            def f(st):
+                l_ = loc(st)
+                a, b = rd(st, l_), fr(st)
+                if _isptr(a) and op in ("+", "-") and isinstance(b, int):
+                    r = self.padd(st, a, b if op == "+" else -b, ps)
+                else:
+                    r = _arith(op, a, b)
+                    if r is not None and wc is not None:
+                        r = wc(r)
+                return wr(st, l_, r)
+            return f
+        if k == "ConditionalOperator":
+            fc, fa, fb = self.X(ks[0]), self.X(ks[1]), self.X(ks[2])
+
+            def f(st):
+                c = fc(st)
+                if c is None:
+                    return None
+                return fa(st) if c else fb(st)
+            return f
+        if k == "CallExpr":
+            return self._ccall(n)
+        if k == "CompoundLiteralExpr" and ks:
+            return self.X(ks[0])
+        if k == "InitListExpr":
+            if _clean(_qt(n)).startswith("struct "):
+                return self._struct_value(n, _qt(n))
+            return lambda st: None
+        if k == "ImplicitValueInitExpr":
+            return lambda st: 0
+        return lambda st: None
+
+    def _cbin(self, n):
+        op = n.get("opcode")
+        a, b = kids(n)
+        if op == "=":
+            loc, rd, wr = self._lvalue(a)
+            fr = self.X(b)
+
+            def f(st):
+                v = fr(st)
+                return wr(st, loc(st), v)
+            return f
+        fa, fb = self.X(a), self.X(b)
+        if op == ",":
+            return lambda st: (fa(st), fb(st))[1]
+        if op == "&&":
+            def f(st):
+                x = fa(st)
+                if x is not None and not x:
+                    return 0
+                y = fb(st)
+                if y is not None and not y:
+                    return 0
+                return None if x is None or y is None else 1
+            return f
+        if op == "||":
+            def f(st):
+                x = fa(st)
+                if x is not None and x:
+                    return 1
+                y = fb(st)
+                if y is not None and y:
+                    return 1
+                return None if x is None or y is None else 0
+            return f
+        w = _wrapper(_qt(n))
+        psa = _tsize(_pointee(_qt(a)) or "") if _clean(_qt(a)).endswith("*") else None
+        psb = _tsize(_pointee(_qt(b)) or "") if _clean(_qt(b)).endswith("*") else None
+
+        cmpop = op in ("<", ">", "<=", ">=", "==", "!=")
+        fast = _FAST.get(op)
+
+        def f(st):
+            x, y = fa(st), fb(st)
+            if type(x) is int and type(y) is int:
+                r = fast(x, y) if fast is not None else _arith(op, x, y)
+                if r is not None and w is not None and not cmpop:
+                    r = w(r)
+                return r
+            if _isptr(x) or _isptr(y):
+                if op == "+":
+                    return self.padd(st, x, y, psa) if _isptr(x) else self.padd(st, y, x, psb)
+                if op == "-" and _isptr(x) and isinstance(y, int):
+                    return self.padd(st, x, -y, psa)
+                if _isptr(x) and _isptr(y) and x[1] == y[1]:
+                    if op == "-":
+                        return x[2] - y[2]
+                    return _arith(op, x[2], y[2])
+                if op in ("==", "!=") and (x == 0 or y == 0):
+                    return int(op == "!=")
+                return None
+            r = _arith(op, x, y)
+            if r is not None and w is not None and op not in ("<", ">", "<=", ">=", "==", "!="):
+                r = w(r)
+            return r
+        return f
+
+    def _ccall(self, n):
+        ks = kids(n)
+        callee = strip(ks[0])
+        name = callee.get("referencedDecl", {}).get("name") if kind(callee) == "DeclRefExpr" else None
+        args = ks[1:]
+        hook = self.hooks.get(name)
+        if hook is not None:
+            fargs = [self.X(a) for a in args]
+            return lambda st: hook(self, st, [f(st) for f in fargs], n)
+        fd = self.tu.functions.get(name) if name else None
+        body = None
+        if fd is not None:
+            for c in kids(fd):
+                if kind(c) == "CompoundStmt":
+                    body = c
+        if body is None:
+            return lambda st: None        # external function without a model: no effect on the decoded values, value unknown
+        fargs = [self.X(a) for a in args]
+        pnames = [p.get("name") for p in self.tu.fparams(fd)]
+
+        def f(st):
+            vals = [f_(st) for f_ in fargs]
+            if st.depth > 6:
+                raise AnalysisError("C evaluation: call depth")
+            saved = st.env
+            st.env = dict(zip(pnames, vals))
+            st.depth += 1
+            try:
+                r = self.S(body)(st)
+            except _Goto as j:
+                raise AnalysisError("C evaluation: goto %s into a nested block" % j.label)
+            finally:
+                st.env = saved
+                st.depth -= 1
+            return r[1] if isinstance(r, tuple) else None
+        return f
+
+    # -- statements -------------------------------------------------------------------------
+    def S(self, n):
+        f = self._s.get(id(n))
+        if f is None:
+            f = self._s[id(n)] = self._cs(n)
+        return f
+
+    def inert(self, n):
+        """True if executing or skipping n cannot change what the function decodes / emits: no jump, stores only
+        through member expressions rooted at a pointer parameter / file-scope object, calls only of functions
+        without a body whose arguments do not mention a local array or pointer"""
+        r = self._inert.get(id(n))
+        if r is not None:
+            return r
+
+        def root_ok(lv):
+            lv = strip(lv, casts=True)
+            while kind(lv) in ("MemberExpr",):
+                if lv.get("isArrow"):
+                    b = strip(kids(lv)[0], casts=True)
+                    t = (b.get("type") or {}).get("qualType", "")
+                    return kind(b) in ("DeclRefExpr", "MemberExpr") and "struct " in t and not any(w_ in t for w_ in self.watch)
+                lv = strip(kids(lv)[0], casts=True)
+            if kind(lv) == "DeclRefExpr":
+                d = self.tu.by_id.get(lv.get("referencedDecl", {}).get("id"))
+                return d is not None and kind(self.tu.parent.get(id(d)) or {}) == "TranslationUnitDecl" and \
+                    "const" not in (d.get("type") or {}).get("qualType", "")
+            return False
+        ok = True
+        for x in walk(n):
+            k = kind(x)
+            if k in ("ReturnStmt", "BreakStmt", "ContinueStmt", "GotoStmt", "LabelStmt", "CaseStmt", "DefaultStmt", "DeclStmt"):
+                ok = False
+            elif (k == "BinaryOperator" and x.get("opcode") == "=") or k == "CompoundAssignOperator" or \
+                    (k == "UnaryOperator" and x.get("opcode") in ("++", "--")):
+                if not root_ok(kids(x)[0]):
+                    ok = False
+            elif k == "CallExpr":
+                c = strip(kids(x)[0])
+                nm = c.get("referencedDecl", {}).get("name") if kind(c) == "DeclRefExpr" else None
+                if nm is None or nm in self.hooks:
+                    ok = False
+                else:
+                    fd = self.tu.functions.get(nm)
+                    if fd is not None and any(kind(c_) == "CompoundStmt" for c_ in kids(fd)):
+                        ok = False
+                    for a in kids(x)[1:]:
+                        for y in walk(a):
+                            if kind(y) == "DeclRefExpr" and y.get("referencedDecl", {}).get("kind") == "VarDecl":
+                                t = _clean((y.get("type") or {}).get("qualType", ""))
+                                d = self.tu.by_id.get(y.get("referencedDecl", {}).get("id"))
+                                loc = d is not None and kind(self.tu.parent.get(id(d)) or {}) == "DeclStmt"
+                                if loc and (t.endswith("]") or t.endswith("*")):
+                                    ok = False
+            if not ok:
+                break
+        self._inert[id(n)] = ok
+        return ok
+
+    def _cond(self, c, arms):
+        fc = self.X(c)
+        txt = ctext(c)
+        arms = [a for a in arms if a]
+
+        def f(st):
+            v = fc(st)
+            if v is None:
+                if arms and all(self.inert(a) for a in arms):
+                    return None
+                raise AnalysisError("C evaluation: condition is not determined by the datagram: %s" % txt[:120])
+            return 1 if v else 0
+        return f
+
+    def _cs(self, n):
+        k = kind(n)
+        if k == "CompoundStmt":
+            fs = [self.S(x) for x in kids(n)]
+            labels = {x.get("declId"): i for i, x in enumerate(kids(n)) if kind(x) == "LabelStmt"}
+            if not labels:
+                def f(st):
+                    for g in fs:
+                        r = g(st)
+                        if r is not None:
+                            return r
+                    return None
+                return f
+
+            def f(st):
+                i = 0
+                while i < len(fs):
+                    try:
+                        r = fs[i](st)
+                    except _Goto as j:
+                        if j.label not in labels:
+                            raise
+                        st.steps += 1
+                        if st.steps > self.max_steps:
+                            raise AnalysisError("C evaluation: step limit")
+                        i = labels[j.label]         # a label of this block: continue there
+                        continue
+                    if r is not None:
+                        return r
+                    i += 1
+                return None
+            return f
+        if k == "DeclStmt":
+            acts = []
+            for d in kids(n):
+                if kind(d) != "VarDecl":
+                    continue
+                name = d.get("name")
+                qt = (d.get("type") or {}).get("qualType", "")
+                init = kids(d)[-1] if kids(d) else None
+                if _clean(qt).endswith("]"):
+                    ext, el = array_extent(qt), _pointee(_qt(d))
+                    esz, w = _tsize(el or ""), _wrapper(el or "")
+                    ivals = None
+                    if init is not None and kind(strip(init)) == "InitListExpr":
+                        ivals = _init_elems(self.tu, strip(init))
+                        if ivals is None:
+                            ivals = "?"
+                    elif init is not None:
+                        ivals = "?"
+
+                    def act(st, name=name, ext=ext, esz=esz, ivals=ivals, w=w):
+                        key = name if st.depth == 0 else "%s@%d" % (name, st.depth)
+                        if ext is None or esz is None or ivals == "?":
+                            st.mem.pop(key, None)
+                            return
+                        st.esz[key] = esz
+                        if ivals is None:
+                            st.mem[key] = [None] * ext
+                        else:
+                            vals = [(v or 0) for v in ivals] + [0] * (ext - len(ivals))
+                            st.mem[key] = [(v & 0xff) if esz == 1 else (w(v) if w else v) for v in vals]
+                    acts.append(act)
+                elif init is not None:
+                    fi = self.X(init)
+                    w = _wrapper(_qt(d))
+
+                    def act(st, name=name, fi=fi, w=w):
+                        v = fi(st)
+                        if isinstance(v, tuple) and v and v[0] == "struct":
+                            for f_, x in v[1].items():
+                                st.env["%s.%s" % (name, f_)] = x
+                        else:
+                            st.env[name] = w(v) if (w is not None and isinstance(v, int)) else v
+                    acts.append(act)
+                else:
+                    acts.append(lambda st, name=name: st.env.__setitem__(name, None))
+
+            def f(st):
+                for a in acts:
+                    a(st)
+                return None
+            return f
+        if k == "IfStmt":
+            inner = n["inner"]
+            has_else = n.get("hasElse", False)
+            cond = inner[-3] if has_else else inner[-2]
+            then = inner[-2] if has_else else inner[-1]
+            els = inner[-1] if has_else else None
+            fc = self._cond(cond, [then, els])
+            ft = self.S(then)
+            fe = self.S(els) if els else None
+
+            def f(st):
+                c = fc(st)
+                if c is None:
+                    return None
+                if c:
+                    return ft(st)
+                return fe(st) if fe else None
+            return f
+        if k == "SwitchStmt":
+            inner = n["inner"]
+            fv = self.X(inner[-2])
+            flat = []
+
+            def flatten(x):
+                if kind(x) in ("CaseStmt", "DefaultStmt"):
+                    flat.append(("label", x))
+                    flatten(x["inner"][-1])
+                else:
+                    flat.append(("stmt", x))
+            for x in kids(inner[-1]):
+                flatten(x)
+            labels, default = [], None
+            for i, (t, x) in enumerate(flat):
+                if t == "label" and kind(x) == "CaseStmt":
+                    vs = [self.tu.fold(c) for c in x["inner"][:-1] if c]
+                    labels.append((i, vs))
+                elif t == "label":
+                    default = i
+            code = [(i, self.S(x)) for i, (t, x) in enumerate(flat) if t == "stmt"]
+
+            def f(st):
+                v = fv(st)
+                if v is None:
+                    raise AnalysisError("C evaluation: switch value is not determined by the datagram")
+                start = None
+                for i, vs in labels:
+                    if None in vs:
+                        raise AnalysisError("C evaluation: case label does not fold")
+                    if (len(vs) == 1 and vs[0] == v) or (len(vs) == 2 and vs[0] <= v <= vs[1]):
+                        start = i
+                        break
+                if start is None:
+                    start = default
+                if start is None:
+                    return None
+                for i, g in code:
+                    if i < start:
+                        continue
+                    r = g(st)
+                    if r == _BRK:
+                        return None
+                    if r is not None:
+                        return r
+                return None
+            return f
+        if k == "ReturnStmt":
+            ks = kids(n)
+            fv = self.X(ks[0]) if ks else (lambda st: None)
+            return lambda st: ("ret", fv(st))
+        if k == "BreakStmt":
+            return lambda st: _BRK
+        if k == "ContinueStmt":
+            return lambda st: _CNT
+        if k in ("ForStmt", "WhileStmt", "DoStmt"):
+            inner = n["inner"]
+            if k == "ForStmt":
+                init, cond, inc, body = inner[0], inner[2], inner[3], inner[4]
+            elif k == "WhileStmt":
+                init, cond, inc, body = None, inner[-2], None, inner[-1]
+            else:
+                init, cond, inc, body = None, inner[1], None, inner[0]
+            fi = (self.S(init) if kind(init) == "DeclStmt" else self.X(init)) if init else None
+            fc = self._cond(cond, []) if cond else None
+            fx = self.X(inc) if inc else None
+            fb = self.S(body)
+            post = k == "DoStmt"
+
+            def f(st):
+                if fi:
+                    fi(st)
+                first = True
+                while True:
+                    st.steps += 1
+                    if st.steps > self.max_steps:
+                        raise AnalysisError("C evaluation: step limit")
+                    if fc and not (post and first):
+                        if not fc(st):
+                            return None
+                    first = False
+                    r = fb(st)
+                    if r == _BRK:
+                        return None
+                    if r is not None and r != _CNT:
+                        return r
+                    if fx:
+                        fx(st)
+            return f
+        if k == "NullStmt":
+            return lambda st: None
+        if k == "LabelStmt":
+            return self.S(n["inner"][-1])
+        if k == "GotoStmt":
+            name = n.get("targetLabelDeclId")
+
+            def f(st):
+                if name is None:
+                    raise AnalysisError("C evaluation: goto without a resolvable label")
+                raise _Goto(name)
+            return f
+        if k == "IndirectGotoStmt":
+            def f(st):
+                raise AnalysisError("C evaluation: computed goto")
+            return f
+        if k in ("CaseStmt", "DefaultStmt"):
+            return self.S(n["inner"][-1])
+        fe = self.X(n)
+
+        def f(st):
+            fe(st)
+            return None
+        return f
+
+    def run(self, fdecl, st, args=None):
+        names = [p.get("name") for p in self.tu.fparams(fdecl)]
+        for i, nm in enumerate(names):
+            st.env[nm] = (args or {}).get(nm)
+        try:
+            return self.S(self.tu.body(fdecl))(st)
+        except _Goto as j:
+            raise AnalysisError("C evaluation: goto %s into a nested block" % j.label)
+
+
+_FAST = {"+": _o.add, "-": _o.sub, "*": _o.mul, "&": _o.and_, "|": _o.or_, "^": _o.xor,
+         "<": lambda a, b: int(a < b), ">": lambda a, b: int(a > b), "<=": lambda a, b: int(a <= b),
+         ">=": lambda a, b: int(a >= b), "==": lambda a, b: int(a == b), "!=": lambda a, b: int(a != b)}
+
+
+def _arith(op, a, b):
+    if not isinstance(a, int) or not isinstance(b, int):
+        return None
+    f = _FAST.get(op)
+    if f is not None:
+        return f(a, b)
+    try:
+        if op == "+":
+            return a + b
+        if op == "-":
+            return a - b
+        if op == "*":
+            return a * b
+        if op == "/":
+            if b == 0:
+                return None
+            q = abs(a) // abs(b)
+            return q if (a < 0) == (b < 0) else -q
+        if op == "%":
+            if b == 0:
+                return None
+            q = abs(a) // abs(b)
+            q = q if (a < 0) == (b < 0) else -q
+            return a - b * q
+        if op == "<<":
+            return a << b if 0 <= b < 64 else None
+        if op == ">>":
+            return a >> b if 0 <= b < 64 else None
+        if op == "&":
+            return a & b
+        if op == "|":
+            return a | b
+        if op == "^":
+            return a ^ b
+        if op == "<":
+            return int(a < b)
+        if op == ">":
+            return int(a > b)
+        if op == "<=":
+            return int(a <= b)
+        if op == ">=":
+            return int(a >= b)
+        if op == "==":
+            return int(a == b)
+        if op == "!=":
+            return int(a != b)
+    except (ValueError, OverflowError):
+        return None
+    return None
+
+
+# ---------------------------------------------------------------------------------------------
+# trxcon: decisive layer = the receive / transmit functions evaluated on datagram families
+# ---------------------------------------------------------------------------------------------
+H_FRAMES = 2715648
+
+
+def _be(octs):
+    r = 0
+    for o in octs:
+        r = (r << 8) | o
+    return r
+
+
+def _hex(d, n=12):
+    return "".join("%02x" % x for x in d[:n]) + (".." if len(d) > n else "") + "/%d" % len(d)
+
+
+def _bswap(nbytes):
+    def h(M, st, a, n):
+        v = a[0] if a else None
+        if not isinstance(v, int):
+            return None
+        v &= (1 << (8 * nbytes)) - 1
+        return int.from_bytes(v.to_bytes(nbytes, "little"), "big")     # little-endian target: network order = swapped
+    return h
+
+
+_SWAPS = {"ntohl": _bswap(4), "htonl": _bswap(4), "ntohs": _bswap(2), "htons": _bswap(2),
+          "osmo_ntohl": _bswap(4), "osmo_htonl": _bswap(4), "osmo_ntohs": _bswap(2), "osmo_htons": _bswap(2),
+          "__builtin_bswap32": _bswap(4), "__builtin_bswap16": _bswap(2)}
+
+
+def _rx_hooks(names, ftypes):
+    def h_read(M, st, a, n):
+        if len(a) < 3 or not _isptr(a[1]) or not isinstance(a[2], int):
+            raise AnalysisError("trx_data_rx_cb: receive call with an undetermined buffer or capacity")
+        p, cap = a[1], a[2]
+        m = st.mem.get(p[1])
+        if m is None or st.esz.get(p[1]) != 1:
+            raise AnalysisError("trx_data_rx_cb: receive buffer is not a local octet array")
+        d = st.out["dgram"]
+        k = min(len(d), cap)
+        for i in range(k):
+            if 0 <= p[2] + i < len(m):
+                m[p[2] + i] = d[i]
+            else:
+                st.faults.append(("oob", p[1], p[2] + i))
+        st.out["cap"], st.out["ext"] = cap, len(m) - p[2]
+        return k
+
+    def h_load(nbytes, big):
+        def h(M, st, a, n):
+            if not a or not _isptr(a[0]):
+                return None
+            vs = [M.load(st, M.padd(st, a[0], i, 1), None, 1) for i in range(nbytes)]
+            if any(v is None for v in vs):
+                return None
+            return _be(vs if big else vs[::-1])
+        return h
+
+    def h_ind(M, st, a, n):
+        ref = a[1] if len(a) > 1 else None
+        if not (isinstance(ref, tuple) and ref[0] == "ref"):
+            raise AnalysisError("trx_data_rx_cb: the burst indication handed on is not the address of a local object")
+        fr, key = ref[2], ref[1]
+        snap = {f_: fr.get("%s.%s" % (key, f_)) for f_ in names}
+        bp, bl = snap.get("burst"), snap.get("burst_len")
+        soft = None
+        if _isptr(bp) and isinstance(bl, int) and 0 <= bl <= 4096:
+            w = _wrapper(_pointee(ftypes.get("burst") or "") or "")
+            soft = [M.load(st, M.padd(st, bp, i, 1), w, 1) for i in range(bl)]
+        st.out["ind"] = (snap, soft)
+        raise CDone()
+    return {**_SWAPS, "read": h_read, "recv": h_read, "recvfrom": h_read,
+            "osmo_load32be": h_load(4, True), "osmo_load16be": h_load(2, True),
+            "osmo_load32le": h_load(4, False), "osmo_load16le": h_load(2, False),
+            "trxcon_phyif_handle_burst_ind": h_ind}
+
+
+def _tx_hooks():
+    def h_store(nbytes, big):
+        def h(M, st, a, n):
+            if len(a) < 2 or not _isptr(a[1]):
+                raise AnalysisError("trx_if_handle_phyif_burst_req: store through an undetermined pointer")
+            v = a[0]
+            for i in range(nbytes):
+                sh = 8 * (nbytes - 1 - i) if big else 8 * i
+                M.store(st, M.padd(st, a[1], i, 1), None if not isinstance(v, int) else (v >> sh) & 0xff, None, 1)
+            return None
+        return h
+
+    def h_memcpy(M, st, a, n):
+        if len(a) < 3 or not _isptr(a[0]) or not isinstance(a[2], int) or not 0 <= a[2] <= 8192:
+            raise AnalysisError("trx_if_handle_phyif_burst_req: memcpy with an undetermined destination or length")
+        vals = [M.load(st, M.padd(st, a[1], i, 1), None, 1) if _isptr(a[1]) else None for i in range(a[2])]
+        for i, v in enumerate(vals):
+            M.store(st, M.padd(st, a[0], i, 1), v, None, 1)
+        return a[0]
+
+    def h_memset(M, st, a, n):
+        if len(a) < 3 or not _isptr(a[0]) or not isinstance(a[2], int) or not 0 <= a[2] <= 8192:
+            raise AnalysisError("trx_if_handle_phyif_burst_req: memset with an undetermined destination or length")
+        for i in range(a[2]):
+            M.store(st, M.padd(st, a[0], i, 1), a[1], None, 1)
+        return a[0]
+
+    def h_send(pi, ni):
+        def h(M, st, a, n):
+            p, ln = (a[pi] if len(a) > pi else None), (a[ni] if len(a) > ni else None)
+            octs = M.octets(st, p, ln) if isinstance(ln, int) and 0 <= ln <= 8192 else None
+            if octs is None:
+                raise AnalysisError("trx_if_handle_phyif_burst_req: send with an undetermined buffer or length")
+            st.out.setdefault("sent", []).append(octs)
+            st.out["ext"] = len(st.mem[p[1]]) - p[2]
+            return ln
+        return h
+    return {**_SWAPS, "osmo_store32be": h_store(4, True), "osmo_store16be": h_store(2, True), "osmo_store32le": h_store(4, False),
+            "osmo_store16le": h_store(2, False), "memcpy": h_memcpy, "memmove": h_memcpy, "memset": h_memset,
+            "send": h_send(1, 2), "sendto": h_send(1, 2), "write": h_send(1, 2)}
+
+
+def trxcon_rx_semantic(L, repo, spec, us2s, tier, tu):
+    """trx_data_rx_cb evaluated on datagram families; every result is compared with the reference decoding
+    (spec/trxd.json + the toolkit's usbit2sbit table)"""
     FC = tu.rel
     f = tu.func("trx_data_rx_cb")
     L.fn(FC, "trx_data_rx_cb")
+    flds = tu.record_fields("trxcon_phyif_burst_ind")
+    names = [nm for nm, _ in flds]
+    if not {"tn", "fn", "rssi", "toa256", "burst", "burst_len"} <= set(names):
+        raise AnalysisError("struct trxcon_phyif_burst_ind: anchor members tn/fn/rssi/toa256/burst/burst_len not found")
+    M = CMach(tu, _rx_hooks(names, dict(flds)))
+    M.watch = ("trxcon_phyif_burst_ind",)
+    sp = spec["Rx"]["0"]
+    hl, pad = sp["hdr_len"], sp["burst"]["legacy_pad"]
+    bits0 = {nm: (sh, w) for nm, sh, w in bits_layout(spec["hdr_common"][0]["fields"], 1) if nm}
+    off = {fd.get("name"): fd for fd in spec["hdr_common"] + sp["fields"] if fd.get("name")}
+    o_fn, o_rssi, o_toa = off["fn"]["off"], off["rssi"]["off"], off["toa256"]["off"]
+    want = {}
+    for bl in sp["burst"]["lengths"]:
+        want[hl + bl] = bl
+        want[hl + bl + pad] = bl
+    H = H_FRAMES
+    rsv0 = 0xff
+    for nm, (sh, w) in bits0.items():
+        rsv0 &= ~(((1 << w) - 1) << sh)
+
+    def ref(d):
+        bl = want.get(len(d))
+        if bl is None or (d[0] >> bits0["ver"][0]) & ((1 << bits0["ver"][1]) - 1) != 0:
+            return None
+        fn = _be(d[o_fn:o_fn + 4])
+        if fn >= H:
+            return None
+        toa = _be(d[o_toa:o_toa + 2])
+        return {"optional": bool(d[0] & rsv0),     # reserved bits set: no toolkit message; may be refused, else decoded per the layout
+                "tn": (d[0] >> bits0["tn"][0]) & ((1 << bits0["tn"][1]) - 1), "fn": fn, "rssi": -d[o_rssi],
+                "toa256": toa - 65536 if toa >= 32768 else toa, "burst_len": bl,
+                "soft": [us2s[d[hl + i]] for i in range(bl)]}
+
+    def mk(o0=0x02, fn=0x00123456, rssi=60, toa=(0x12, 0x34), bl=148, padded=False, pay=lambda i: (i * 7 + 3) & 0xff, ln=None):
+        d = [0] * hl
+        d[0] = o0
+        d[o_fn:o_fn + 4] = [(fn >> 24) & 255, (fn >> 16) & 255, (fn >> 8) & 255, fn & 255]
+        d[o_rssi] = rssi
+        d[o_toa], d[o_toa + 1] = toa
+        if ln is not None:
+            d = (d + [pay(i) for i in range(max(0, ln - hl))])[:ln]
+        else:
+            d += [pay(i) for i in range(bl)] + ([0] * pad if padded else [])
+        return d
+    rmin, rmax = 47, 120
+    try:
+        rci = repo.need_class("data_msg", "RxMsg")
+        ev = Ev(repo, repo.mod("data_msg"), self_cls=rci)
+        a_, b_ = ev.ev(repo.find_attr(rci, "RSSI_MAX")[1]), ev.ev(repo.find_attr(rci, "RSSI_MIN")[1])
+        if isinstance(a_, int) and isinstance(b_, int) and 0 <= -a_ <= -b_ <= 255:
+            rmin, rmax = -a_, -b_
+    except Exception:
+        pass
+    bad = {k: [] for k in ("len", "ver", "fnb", "acc", "tn", "fn", "rssi", "toa256", "burst_len", "soft", "fault")}
+    cnt = {"runs": 0, "delivered": 0}
+    info = {}
+
+    def one(tag, d):
+        st = CState()
+        st.out["dgram"] = d
+        try:
+            M.run(f, st)
+        except CDone:
+            pass
+        cnt["runs"] += 1
+        if "cap" in st.out:
+            info.setdefault("caps", set()).add(st.out["cap"])
+            info.setdefault("exts", set()).add(st.out["ext"])
+        got = st.out.get("ind")
+        exp = ref(d)
+        flt = sorted({x for x in st.faults if x[0] == "oob" or got is not None})
+        if flt:
+            # an access outside the buffer, or a delivered value that depends on an octet which is not part of the datagram
+            bad["fault"].append((_hex(d), flt[:3]))
+            return got, exp
+        if got is not None:
+            cnt["delivered"] += 1
+            und = [k for k in ("tn", "fn", "rssi", "toa256", "burst_len") if not isinstance(got[0].get(k), int)]
+            if und or got[1] is None or any(not isinstance(x, int) for x in got[1]):
+                raise AnalysisError("trx_data_rx_cb: the evaluation does not determine the %s handed on in the burst indication" % (
+                    ", ".join("`%s`" % k for k in und) or "soft bits"))
+        if (got is None) != (exp is None):
+            if got is None and exp.get("optional"):
+                return got, exp
+            bad[tag if tag in ("len", "ver", "fnb") else "acc"].append((_hex(d), "delivered" if got else "rejected"))
+            return got, exp
+        if got is None:
+            return got, exp
+        snap, soft = got
+        for k in ("tn", "fn", "rssi", "toa256", "burst_len"):
+            if snap.get(k) != exp[k]:
+                bad[k].append((_hex(d), snap.get(k), exp[k]))
+        if soft != exp["soft"]:
+            i = next((i for i in range(min(len(soft or []), len(exp["soft"]))) if soft[i] != exp["soft"][i]), None)
+            bad["soft"].append((_hex(d), "length %s/%d" % (None if soft is None else len(soft), len(exp["soft"])) if i is None else
+                                ("position %d octet %d" % (i, d[hl + i]), soft[i], exp["soft"][i])))
+        return got, exp
+    # (1) every datagram length
+    one("len", mk(ln=1))
+    caps = info.get("caps") or set()
+    if len(caps) != 1:
+        raise AnalysisError("trx_data_rx_cb: receive capacity not determined (%s)" % sorted(caps))
+    cap = min(caps)
+    ext = min(info["exts"])
+    top = max(ext, cap, max(want) + 8)
+    accepted = {}
+    for ln in range(1, top + 1):
+        if ln > cap and ln not in want:
+            continue            # longer than the receive capacity and not a legal length: outside the property (arrives truncated)
+        got, exp = one("len", mk(ln=ln))
+        if got is not None:
+            accepted[ln] = got[0].get("burst_len")
+    # (2) all values of octet 0
+    for v in range(256):
+        one("ver", mk(o0=v))
+    # (3) header octets and soft bits: run j puts j-dependent values everywhere
+    for j in range(256):
+        one("main", mk(o0=j & 0x0f, fn=(j << 8) | (255 - j), rssi=rmin + j % (rmax - rmin + 1), toa=(j, (j * 37 + 11) & 0xff),
+                       padded=bool(j & 1), pay=lambda i, j=j: (i + j) & 0xff))
+    # (4) frame number: octet walks and the hyperframe boundary
+    for j in range(256):
+        if tier == "thorough" or j < 4 or j & (j - 1) == 0 or j in (0x29, 0x2a, 0x55, 0x7f, 0xaa, 0xfe, 0xff):
+            one("fnb", mk(fn=j << 24))          # every such FN is far beyond the hyperframe: a sample suffices in the quick tier
+        one("fnb", mk(fn=(j << 16) | 0x6fff))
+    for fn in (0, 1, 255, 256, 65535, 65536, H - 2, H - 1, H, H + 1, 0x00ffffff, 0x01000000, 0x7fffffff, 0x80000000, 0xffffffff):
+        one("fnb", mk(fn=fn))
+    # (5) ToA256 sign boundary
+    edge = (0, 1, 0x7f, 0x80, 0xfe, 0xff, 0x55, 0xaa)
+    for a_ in edge:
+        for b_ in edge:
+            one("toa", mk(toa=(a_, b_)))
+    # (6) the long burst
+    longs = [bl for bl in sp["burst"]["lengths"] if bl != 148]
+    for bl in longs:
+        for j in range(256 if tier == "thorough" else 16):
+            step = 1 if tier == "thorough" else 16
+            one("long", mk(bl=bl, padded=bool(j & 1), o0=j & 7, pay=lambda i, j=j, step=step: (i + j * step) & 0xff))
+    line = tu.line(f)
+    R, fn_ = "C04.R2", "trx_data_rx_cb"
+    L.floor(R, "datagrams evaluated through trx_data_rx_cb", cnt["runs"], 1000)
+    L.floor(R, "datagrams delivered as burst indication", cnt["delivered"], 200)
+    L.require(R, FC, fn_,
+              "accepted datagram lengths and the burst length handed on (header + {148, 444}, with or without the 2 legacy octets which are stripped; a datagram longer than the receive capacity arrives truncated); every other length 1..%d is rejected" % top,
+              want, accepted, line=line)
+    L.ob(R, FC, fn_, "no delivered value depends on an octet outside the received datagram and no access leaves the buffer (every datagram length, every family)",
+         [], bad["fault"][:4], not bad["fault"], line)
+    L.ob(R, FC, fn_, "only header version 0 is accepted (octet 0 bits 7..4), all 256 values of octet 0 (a datagram with the reserved bit set may be refused)", [], bad["ver"][:4], not bad["ver"], line)
+    L.ob(R, FC, fn_, "a datagram of legal length, version 0 and FN < 2715648 is delivered, whatever its other octets", [], bad["acc"][:4], not bad["acc"], line)
+    L.ob(R, FC, fn_, "timeslot is taken from octet 0 bits 2..0 (all 16 values of the low nibble)", [], bad["tn"][:4], not bad["tn"], line)
+    L.ob(R, FC, fn_, "frame number is the 32-bit big-endian value at octets 1..4 (every value of each octet)", [], bad["fn"][:4], not bad["fn"], line)
+    L.ob(R, FC, fn_, "RSSI is the negated octet 5 for every valid RSSI octet (%d..%d)" % (rmin, rmax), [], bad["rssi"][:4], not bad["rssi"], line)
+    L.ob(R, FC, fn_, "ToA256 is the signed 16-bit big-endian value at octets 6..7 (every value of each octet, sign boundary grid)",
+         [], bad["toa256"][:4], not bad["toa256"], line)
+    L.ob(R, FC, fn_, "burst length handed on is the validated payload length", [], bad["burst_len"][:4], not bad["burst_len"], line)
+    L.ob(R, FC, fn_, "soft bits start right after the %d-octet v0 header and equal the toolkit's usbit2sbit table: all 256 octet values at each of the 148 positions, value/position sweeps of the 444-bit burst" % hl,
+         [], bad["soft"][:4], not bad["soft"], line)
+    L.ob(R, FC, fn_, "a burst is delivered exactly for FN < 2715648 (the toolkit's GSM_HYPERFRAME): octet walks and boundary 2715647 / 2715648",
+         [], bad["fnb"][:4], not bad["fnb"], line)
+    badr = [(u, us2s[u]) for u in range(255) if us2s[u] != 127 - u]
+    L.ob(R, rel("data_msg"), "Msg", "soft bit = 127 - octet for 0..254, 255 -> -127 (reference) in the table trxcon is compared with", [], badr[:4],
+         not badr and us2s[255] == -127)
+    Hpy = fold(repo, repo.mod("gsm_shared"), ast.parse("GSM_HYPERFRAME", mode="eval").body)
+    L.require(R, rel("gsm_shared"), "<module>", "toolkit's GSM_HYPERFRAME equals trxcon's GSM_TDMA_HYPERFRAME", H, Hpy)
+    L.unit(rel("gsm_shared"))
+    largest = hl + max(sp["burst"]["lengths"]) + pad
+    L.ob("C04.R4", FC, fn_, "trxcon's receive buffer and receive capacity hold the largest v0 Rx datagram the toolkit sends (%d octets incl. legacy padding)" % largest,
+         ">= %d" % largest, min(cap, ext), min(cap, ext) >= largest)
+    L.extra["c04_rx_runs"] = cnt["runs"]
+    return M
+
+
+def trxcon_tx_semantic(L, repo, spec, tier, tu):
+    FC = tu.rel
+    f2 = tu.func("trx_if_handle_phyif_burst_req")
+    L.fn(FC, "trx_if_handle_phyif_burst_req")
+    ps = tu.fparams(f2)
+    brp = [p for p in ps if "trxcon_phyif_burst_req" in (p.get("type") or {}).get("qualType", "")]
+    if len(brp) != 1:
+        raise AnalysisError("trx_if_handle_phyif_burst_req: burst request parameter not found")
+    P = brp[0].get("name")
+    names = [nm for nm, _ in tu.record_fields("trxcon_phyif_burst_req")]
+    if not {"tn", "fn", "pwr", "burst", "burst_len"} <= set(names):
+        raise AnalysisError("struct trxcon_phyif_burst_req: anchor members tn/fn/pwr/burst/burst_len not found")
+    M = CMach(tu, _tx_hooks())
+    M.watch = ("trxcon_phyif_burst_req",)
+    spt = spec["Tx"]["0"]
+    hl = spt["hdr_len"]
+    bits0 = {nm: (sh, w) for nm, sh, w in bits_layout(spec["hdr_common"][0]["fields"], 1) if nm}
+    off = {fd.get("name"): fd for fd in spec["hdr_common"] + spt["fields"] if fd.get("name")}
+    H = H_FRAMES
+    bad, faults, nsent = [], [], []
+    cnt = [0]
+    exts = set()
+
+    def one(tn, fn, pwr, bits):
+        st = CState()
+        st.mem["@bits"], st.esz["@bits"] = list(bits), 1
+        for k, v in (("tn", tn), ("fn", fn), ("pwr", pwr), ("burst", ("ptr", "@bits", 0)), ("burst_len", len(bits))):
+            st.env["%s->%s" % (P, k)] = v
+        M.run(f2, st)
+        cnt[0] += 1
+        exp = [0] * hl
+        exp[0] = tn << bits0["tn"][0]
+        exp[off["fn"]["off"]:off["fn"]["off"] + 4] = [(fn >> 24) & 255, (fn >> 16) & 255, (fn >> 8) & 255, fn & 255]
+        exp[off["pwr"]["off"]] = pwr
+        exp += list(bits)
+        sent = st.out.get("sent") or []
+        if "ext" in st.out:
+            exts.add(st.out["ext"])
+        if any(x is _UNKNOWN for o_ in sent for x in o_):
+            raise AnalysisError("trx_if_handle_phyif_burst_req: the evaluation does not determine every octet that is sent")
+        if len(sent) != 1:
+            nsent.append((tn, fn, pwr, len(bits), len(sent)))
+        elif sent[0] != exp:
+            i = next((i for i in range(min(len(sent[0]), len(exp))) if sent[0][i] != exp[i]), None)
+            bad.append(("tn=%d fn=%d pwr=%d burst_len=%d" % (tn, fn, pwr, len(bits)),
+                        "length %d/%d" % (len(sent[0]), len(exp)) if i is None else ("octet %d" % i, sent[0][i], exp[i])))
+        if st.faults:
+            faults.append((tn, fn, pwr, len(bits), sorted(set(st.faults))[:3]))
+    lens = spt["burst"]["lengths"]
+    for j in range(256):
+        fn = (j * 10601 + 7) % H
+        one(j & 7, fn, j, [((i * i + i // 3 + j) >> 1) & 1 for i in range(lens[0])])
+    for tn in range(8):
+        for pwr in (0, 1, 0x7f, 0x80, 0xff):
+            one(tn, 0x00123456, pwr, [(i ^ tn) & 1 for i in range(lens[0])])
+    for fn in (0, 1, 255, 256, 65535, 65536, 0x00010203, 0x00203040, H - 1):
+        one(3, fn, 10, [i & 1 for i in range(lens[0])])
+    for bl in lens[1:]:
+        for j in range(16):
+            one(j & 7, (j * 170003 + 11) % H, (j * 17) & 0xff, [((i * 7 + j) % 5) & 1 for i in range(bl)])
+    R, fn_ = "C04.R3", "trx_if_handle_phyif_burst_req"
+    line = tu.line(f2)
+    L.floor(R, "burst requests evaluated through trx_if_handle_phyif_burst_req", cnt[0], 300)
+    L.ob(R, FC, fn_, "exactly one datagram is sent on the data socket per burst request", [], nsent[:4], not nsent, line)
+    L.ob(R, FC, fn_, "the datagram is: octet 0 = timeslot (version nibble 0), frame number big-endian at octets 1..4, attenuation at octet 5, hard bits right after the %d-octet header, length = header + burst length (all timeslots, all attenuation values, frame-number sweep, both burst lengths)" % hl,
+         [], bad[:4], not bad, line)
+    L.ob(R, FC, fn_, "no octet that was never written is sent and no access leaves the buffers", [], faults[:4], not faults, line)
+    largest_tx = hl + max(lens)
+    ext2 = min(exts) if exts else None
+    L.ob("C04.R4", FC, fn_, "trxcon's transmit buffer holds header + the largest burst (%d)" % largest_tx,
+         ">= %d" % largest_tx, ext2, ext2 is not None and ext2 >= largest_tx)
+    # Python receive size
+    ci, rr = repo.need_method("data_if", "DATAInterface", "recv_raw_data")
+    L.unit(rel("data_if"))
+    sizes = []
+    for c in calls_in(rr):
+        if canon(c.func).endswith(".recvfrom"):
+            sizes.append(Ev(repo, repo.mod("data_if"), self_cls=ci).ev(c.args[0]))
+    L.ob("C04.R4", rel("data_if"), "DATAInterface.recv_raw_data", "the toolkit's data socket receive size holds trxcon's largest datagram (%d octets)" % largest_tx,
+         ">= %d" % largest_tx, sizes, len(sizes) == 1 and sizes[0] >= largest_tx)
+    L.extra["c04_tx_runs"] = cnt[0]
+
+
+# ---------------------------------------------------------------------------------------------
+# Python codec: decisive layer = gen_msg() / parse_msg() evaluated on message families by the
+# concrete AST interpreter of rules/c16.py (Mach: never imports repository code) and compared
+# with the reference layout spec/trxd.json
+# ---------------------------------------------------------------------------------------------
+def _s16(v):
+    return v - 65536 if v >= 32768 else v
+
+
+def ref_encode(spec, key, ver, m, legacy=False):
+    """octets of message m (dict of field values) per the reference layout"""
+    sp = spec[key][str(ver)]
+    out = [0] * sp["hdr_len"]
+    for fd in spec["hdr_common"] + sp["fields"]:
+        o = fd["off"]
+        if fd["kind"] == "bits" and fd.get("name") == "mts":
+            ms = spec["mts"]
+            if m.get("nope_ind"):
+                out[o] = 1 << ms["nope_bit"]
+            else:
+                out[o] = ((ms["modulations"][m["mod_type"]]["coding"] | m["tsc_set"]) << ms["mod_shift"]) | m["tsc"]
+        elif fd["kind"] == "bits":
+            v = 0
+            for nm, sh, w in bits_layout(fd["fields"], fd["size"]):
+                if nm:
+                    v |= ((ver if nm == "ver" else m[nm]) & ((1 << w) - 1)) << sh
+            out[o] = v
+        elif fd["kind"] == "be_u32":
+            x = m[fd["name"]]
+            out[o:o + 4] = [(x >> 24) & 255, (x >> 16) & 255, (x >> 8) & 255, x & 255]
+        elif fd["kind"] == "be_i16":
+            x = m[fd["name"]] & 0xffff
+            out[o:o + 2] = [x >> 8, x & 255]
+        elif fd["kind"] == "u8":
+            out[o] = (-m[fd["name"]] if fd.get("neg") else m[fd["name"]]) & 255
+        else:
+            raise AnalysisError("spec/trxd.json: field kind %s" % fd["kind"])
+    b = m.get("burst")
+    if b is not None:
+        out += [127 - s for s in b] if sp["burst"]["coding"] == "usbit" else list(b)
+    if legacy:
+        out += [0] * sp["burst"]["legacy_pad"]
+    return out
+
+
+def python_semantic(L, repo, spec, tier):
+    import importlib
+    import array as _array
+    try:
+        c16 = importlib.import_module("rules.c16")
+    except Exception as e:      # the interpreter lives in another rule module: without it the structural rules decide
+        raise AnalysisError("C04: the Python AST interpreter (rules/c16.py) is not available: %s" % str(e)[:120])
+    L.unit(F)
+    H = H_FRAMES
+    mm = c16.Mach(repo, fuel=4000000)
+
+    def guarded(what, fn_, *a):
+        mm.fuel, mm.depth = 4000000, 0
+        try:
+            return ("ok", fn_(*a))
+        except c16.PyRaise as e:
+            if e.cls_name in ("TypeError", "AttributeError", "NameError", "NotImplementedError", "ImportError"):
+                # the witness harness no longer fits the API (constructor keywords, attribute names): no verdict
+                raise AnalysisError("data_msg.%s: the witness harness does not fit the code (%s: %s)" % (what, e.cls_name, str(e)[:120]))
+            return ("raise", e.cls_name)
+        except (c16.MachUnknown, c16.MachTimeout) as e:
+            raise AnalysisError("data_msg.%s cannot be evaluated: %s" % (what, str(e)[:160]))
+        except AnalysisError:
+            raise
+        except Exception as e:
+            raise AnalysisError("data_msg.%s cannot be evaluated (%s: %s)" % (what, type(e).__name__, str(e)[:120]))
+    try:
+        mod = mm.module("data_msg")
+        classes = {k: mm.getattr_(mod, k) for k in ("TxMsg", "RxMsg", "Modulation")}
+    except (c16.MachUnknown, c16.MachTimeout, c16.PyRaise) as e:
+        raise AnalysisError("data_msg cannot be evaluated: %s" % str(e)[:160])
+    mods = spec["mts"]["modulations"]
+    r = guarded("Modulation", lambda: {nm: mm.getattr_(classes["Modulation"], nm) for nm in mods})
+    if r[0] != "ok":
+        raise AnalysisError("data_msg.Modulation: reference member missing (%s)" % r[1])
+    members = r[1]
+    known = fold(repo, repo.mod("data_msg"), ast.parse("Msg.KNOWN_VERSIONS", mode="eval").body)
+    try:
+        known = sorted(int(v) for v in known)
+    except Exception:
+        raise AnalysisError("Msg.KNOWN_VERSIONS does not fold")
+    rmin, rmax = 47, 120
+    bad = {}
+    cnt = {"gen": 0, "parse": 0}
+    us2s = {}
+
+    def note(key, what):
+        bad.setdefault(key, []).append(what)
+
+    def build(cls, ver, m):
+        o = mm.call(classes[cls], [], {"fn": m["fn"], "tn": m["tn"], "ver": ver})
+        for k, v in m.items():
+            if k in ("fn", "tn"):
+                continue
+            if k == "mod_type":
+                v = members[v]
+            elif k == "burst" and v is not None:
+                v = _array.array("b", v) if cls == "RxMsg" else bytearray(v)
+            mm.setattr_(o, k, v)
+        return o
+
+    def do_gen(cls, ver, m, legacy=False):
+        key = "%s v%d" % (cls, ver)
+        L.fn(F, cls + ".gen_msg")
+        exp = ref_encode(spec, "Tx" if cls == "TxMsg" else "Rx", ver, m, legacy)
+        r = guarded(cls + ".gen_msg", lambda: list(mm.call(mm.getattr_(build(cls, ver, m), "gen_msg"), [True] if legacy else [], {})))
+        cnt["gen"] += 1
+        desc = {k: (v if k != "burst" else ("%d bits" % len(v) if v is not None else None)) for k, v in m.items()}
+        if r[0] != "ok":
+            note((key, "gen"), (desc, "raises %s" % r[1]))
+            return exp
+        got = r[1]
+        if got != exp:
+            i = next((i for i in range(min(len(got), len(exp))) if got[i] != exp[i]), None)
+            note((key, "gen"), (desc, "length %d/%d" % (len(got), len(exp)) if i is None else ("octet %d" % i, got[i], exp[i])))
+        return exp
+
+    def do_parse(cls, ver, m, d, check_burst=True, may_reject=False):
+        key = "%s v%d" % (cls, ver)
+        L.fn(F, cls + ".parse_msg")
+
+        def run():
+            o = mm.call(classes[cls], [], {})
+            mm.call(mm.getattr_(o, "parse_msg"), [bytearray(d)], {})
+            out = {}
+            for k in m:
+                v = mm.getattr_(o, k)
+                if k == "mod_type":
+                    v = None if v is None else next((nm for nm, x in members.items() if x is v), "?")
+                elif k == "burst" and v is not None:
+                    v = list(v)
+                out[k] = v
+            out["ver"] = mm.getattr_(o, "ver")
+            return out
+        r = guarded(cls + ".parse_msg", run)
+        cnt["parse"] += 1
+        if r[0] != "ok":
+            if not may_reject:          # (a datagram no valid message produces may be refused; if accepted it is decoded per the layout)
+                note((key, "parse"), (_hex(d), "raises %s" % r[1]))
+            return None
+        got = r[1]
+        for k, v in list(m.items()) + [("ver", ver)]:
+            if k == "burst" and not check_burst:
+                continue
+            if k in ("mod_type", "tsc_set", "tsc") and m.get("nope_ind"):
+                continue
+            if got.get(k) != v:
+                g_, v_ = got.get(k), v
+                if k == "burst" and g_ is not None and v is not None:
+                    i = next((i for i in range(min(len(g_), len(v))) if g_[i] != v[i]), None)
+                    g_, v_ = ("length %d/%d" % (len(g_), len(v))) if i is None else ("position %d" % i, g_[i], v[i]), ""
+                note((key, "parse"), (_hex(d), k, g_, v_))
+        return got
+    n_keys = 0
+    for cls, key in (("TxMsg", "Tx"), ("RxMsg", "Rx")):
+        for ver in known:
+            sp = spec[key].get(str(ver))
+            if sp is None:
+                L.ob("C04.R1", F, cls, "header version %d of %s is described by the reference layout" % (ver, cls), "present", "missing", False)
+                continue
+            n_keys += 1
+            msgs = []
+            lens = sp["burst"]["lengths"] if isinstance(sp["burst"]["lengths"], list) else None
+            combos = [(nm, ts, tsc) for nm, sm in mods.items() for ts in range(1 << sm["set_bits"]) for tsc in range(1 << spec["mts"]["tsc_width"])]
+            nrun = 256
+            for j in range(nrun):
+                m = {"tn": j & 7, "fn": (j * 10601 + 7) % H}
+                if cls == "TxMsg":
+                    m["pwr"] = j
+                    bl = lens[1] if (j % 8 == 0 and len(lens) > 1) else lens[0]
+                    m["burst"] = [((i * i + i // 3 + j) >> 1) & 1 for i in range(bl)]
+                else:
+                    m["rssi"] = -(rmin + j % (rmax - rmin + 1))
+                    m["toa256"] = _s16((j << 8) | ((j * 37 + 11) & 0xff))
+                    if ver >= 1:
+                        nm, ts, tsc = combos[j % len(combos)]
+                        m.update({"nope_ind": j % 16 == 15, "mod_type": nm, "tsc_set": ts, "tsc": tsc, "ci": -1280 + (j * 21) % 2561})
+                        bl = mods[nm]["burst_len"]
+                        if m["nope_ind"]:
+                            bl = None
+                    else:
+                        bl = lens[1] if (j % 8 == 0 and len(lens) > 1) else lens[0]
+                    m["burst"] = None if bl is None else [((i + j) % 255) - 127 for i in range(bl)]
+                msgs.append((m, cls == "RxMsg" and ver == 0 and bool(j & 1)))
+            if cls == "RxMsg" and ver >= 1:
+                # every (modulation, TSC set, TSC) combination of the MTS octet
+                for nm, ts, tsc in combos:
+                    msgs.append(({"tn": tsc, "fn": 42, "rssi": -60, "toa256": 0, "nope_ind": False, "mod_type": nm, "tsc_set": ts, "tsc": tsc,
+                                  "ci": 10 * tsc - 30, "burst": [0] * mods[nm]["burst_len"]}, False))
+            for fn in (0, 1, 255, 256, 65535, 65536, 0x00010203, H - 1):
+                m = dict(msgs[3][0])
+                m["fn"] = fn
+                msgs.append((m, False))
+            if cls == "RxMsg":
+                edge = (0, 1, 0x7f, 0x80, 0xfe, 0xff, 0x55, 0xaa)
+                for a_ in edge:
+                    for b_ in edge:
+                        m = dict(msgs[5][0])
+                        m["toa256"] = _s16((a_ << 8) | b_)
+                        if ver >= 1:
+                            m["ci"] = max(-1280, min(1280, _s16((b_ << 8) | a_)))
+                        msgs.append((m, False))
+                if ver >= 1:
+                    for ci in (-1280, -1, 0, 1, 255, 256, -256, -257, 1280):
+                        m = dict(msgs[5][0])
+                        m["ci"] = ci
+                        msgs.append((m, False))
+            for m, legacy in msgs:
+                d = do_gen(cls, ver, m, legacy)
+                do_parse(cls, ver, m, d)
+            # what the parser accepts beyond what the encoder produces
+            base = dict(msgs[3][0])
+            for fn in (H, H + 1, 0x00ffffff, 0x01000000, 0x80000000, 0xffffffff):
+                m = dict(base)
+                m["fn"] = fn
+                do_parse(cls, ver, m, ref_encode(spec, key, ver, m), may_reject=True)
+            d = ref_encode(spec, key, ver, base)
+            d[0] |= 0x08                         # reserved bit of octet 0 set
+            do_parse(cls, ver, base, d, may_reject=True)
+            if cls == "RxMsg" and ver == 0:
+                # the toolkit's usbit -> sbit map, read off the parser for every octet value at every position
+                for sh in range(0, 256, 1 if tier == "thorough" else 8):
+                    m = dict(base)
+                    pay = [(i + sh) & 0xff for i in range(lens[0])]
+                    m["burst"] = None
+                    d = ref_encode(spec, key, ver, m) + pay
+                    got = do_parse(cls, ver, m, d, check_burst=False)
+                    b = (got or {}).get("burst")
+                    if b is None or len(b) != len(pay):
+                        note((cls + " v0", "parse"), (_hex(d), "burst", None if b is None else len(b), len(pay)))
+                        continue
+                    for u, s in zip(pay, b):
+                        us2s.setdefault(u, set()).add(s)
+    L.floor("C04.R1", "class/version layouts evaluated", n_keys, 4)
+    L.floor("C04.R1", "messages encoded by gen_msg() and compared with the reference octets", cnt["gen"], 500)
+    L.floor("C04.R1", "datagrams decoded by parse_msg() and compared with the reference fields", cnt["parse"], 500)
+    for cls in ("TxMsg", "RxMsg"):
+        for ver in known:
+            if spec["Tx" if cls == "TxMsg" else "Rx"].get(str(ver)) is None:
+                continue
+            key = "%s v%d" % (cls, ver)
+            b = bad.get((key, "gen"), [])
+            L.ob("C04.R1", F, cls + ".gen_msg", "%s: the octets of every witness message equal the reference layout (version/timeslot octet, big-endian frame number, header fields, MTS, burst coding, legacy padding)" % key,
+                 [], b[:3], not b)
+            b = bad.get((key, "parse"), [])
+            L.ob("C04.R1", F, cls + ".parse_msg", "%s: every reference datagram is accepted and decoded to the fields it was built from; a datagram with a frame number beyond the hyperframe or the reserved bit of octet 0 set is, if accepted, decoded per the same layout" % key,
+                 [], b[:3], not b)
+    amb = sorted(u for u, s in us2s.items() if len(s) != 1)
+    L.ob("C04.R1", F, "RxMsg.parse_msg", "the soft bit decoded from a payload octet does not depend on its position", [], amb[:4], not amb)
+    if len(us2s) != 256:
+        raise AnalysisError("RxMsg.parse_msg: soft-bit map not observed for all 256 octet values")
+    tab = [min(us2s[u]) for u in range(256)]
+    badt = [(u, tab[u]) for u in range(255) if tab[u] != 127 - u]
+    L.ob("C04.R1", F, "RxMsg.parse_msg", "soft bits come off the wire as 127 - octet for 0..254, and 255 -> -127", [], badt[:4], not badt and tab[255] == -127)
+    L.extra["c04_py_runs"] = dict(cnt)
+    return tab
+
+
+# ---------------------------------------------------------------------------------------------
+# trxcon: structural layer (for-all-inputs reading of the same code; recorded as structural proofs,
+# never an alarm by itself - see Ledger.structural)
+# ---------------------------------------------------------------------------------------------
+def fold_tab(tu, M, e, env):
+    """fold_env + look-ups in file-scope constant tables (`tab[<folding index>]`)"""
+    env2 = dict(env)
+
+    def visit(x):
+        for c in kids(x):
+            visit(c)
+        if kind(x) == "ArraySubscriptExpr":
+            b = strip(kids(x)[0], casts=True)
+            if kind(b) == "DeclRefExpr":
+                t = M.table(b.get("referencedDecl", {}).get("name"))
+                if t is not None:
+                    idx = fold_env(tu, kids(x)[1], env2)
+                    if idx is not None and 0 <= idx < len(t[0]):
+                        env2[ctext(x)] = t[0][idx]
+    visit(e)
+    return fold_env(tu, e, env2)
+
+
+def trxcon_rx_structural(L, repo, spec, us2s, tu, M):
+    FC = tu.rel
+    f = tu.func("trx_data_rx_cb")
     g = CCFG(tu, f)
     body = tu.body(f)
     sp = spec["Rx"]["0"]
@@ -274,59 +1949,9 @@ def r2_r3_trxcon(L, repo, spec, us2s):
     L.ob("C04.R2", FC, "trx_data_rx_cb", "only header version 0 is accepted (octet 0 bits 7..4)", "(buf[0] >> 4) == 0",
          sorted(("" if p else "!") + t_ for t_, p in lits)[:8], ("(buf[0] >> 4) == 0", True) in lits or ("0 == (buf[0] >> 4)", True) in lits,
          tu.line(il))
-    # payload lengths: the length classification is comparison-only code over read_len; it is folded
-    # for every datagram length 1..sizeof(buf) whatever shape it is written in (switch, if-chain, ...)
-    from cfront import CInterp, CStop
-    bufdecl0 = [n for n in walk(body) if kind(n) == "VarDecl" and n.get("name") == "buf"]
-    ext0 = array_extent(bufdecl0[0].get("type", {}).get("qualType")) if bufdecl0 else None
-    if ext0 is None:
-        raise AnalysisError("trx_data_rx_cb: receive buffer extent unknown")
-
-    def is_stop(st):
-        # the point where the burst indication is built
-        return kind(st) not in ("CompoundStmt", "IfStmt", "SwitchStmt", "DoStmt", "ForStmt", "WhileStmt") and \
-            any(x is il for x in walk(st))
-    accepted = {}
-    want = {}
-    for bl in sp["burst"]["lengths"]:
-        want[sp["hdr_len"] + bl] = bl
-        want[sp["hdr_len"] + bl + sp["burst"]["legacy_pad"]] = bl
-    from cfront import call_args
-
-    def read_hook(e, env, Ln):
-        # read()/recv() deliver at most the capacity passed as the third argument: a longer datagram is truncated
-        args = call_args(e)
-        cap = fold_env(tu, args[2], env) if len(args) >= 3 else None
-        if cap is None:
-            cap = tu.fold(args[2]) if len(args) >= 3 else None
-        if cap is None:
-            raise AnalysisError("trx_data_rx_cb: receive capacity `%s` does not fold" % (ctext(args[2]) if len(args) >= 3 else "?"))
-        caps.add(cap)
-        return min(Ln, cap)
-    caps = set()
-    top = max(ext0, max(sp["burst"]["lengths"]) + sp["hdr_len"] + sp["burst"]["legacy_pad"] + 8)
-    for Ln in range(1, top + 1):
-        # the datagram folded is one with a legal header (version 0, frame number 0): only its length varies
-        hooks = {"read": lambda e, env, Ln=Ln: read_hook(e, env, Ln), "recv": lambda e, env, Ln=Ln: read_hook(e, env, Ln),
-                 "osmo_load32be": lambda e, env: 0, "osmo_load16be": lambda e, env: 0}
-        if caps and Ln > max(caps) and Ln not in want:
-            continue        # longer than the receive capacity and not a legal length: outside the property (arrives truncated)
-        ci_ = CInterp(tu, hooks=hooks, stop=is_stop)
-        env = {"buf[0]": 0}
-        try:
-            r = ci_.run(body, env)
-            accepted[Ln] = None          # returned before building the indication
-        except CStop as stp:
-            accepted[Ln] = stp.env.get("read_len")
-    got = {k: v for k, v in accepted.items() if v is not None}
-    L.require("C04.R2", FC, "trx_data_rx_cb",
-              "accepted datagram lengths and the burst length handed on (header + {148, 444}, with or without the 2 legacy octets which are stripped; a datagram longer than the receive capacity arrives truncated); every other length 1..%d is rejected" % top,
-              want, got, line=tu.line(il))
-    L.extra["c04_lengths_folded"] = ext0
-    # soft-bit conversion: fold the loop body for all 256 octet values
+    # soft-bit conversion: the loop body folded for all 256 octet values (the loop index stays symbolic)
     loops = [n for n in walk(body) if kind(n) == "ForStmt"]
     conv = {}
-    from cfront import wrap_int
     if len(loops) == 1:
         lb = loops[0]["inner"][4]
         srcs = {ctext(n) for n in walk(lb) if kind(n) == "ArraySubscriptExpr" and ctext(kids(n)[0]) == "buf"}
@@ -342,7 +1967,7 @@ def r2_r3_trxcon(L, repo, spec, us2s):
                         run_c(x, env, out)
                 elif k == "IfStmt":
                     inner = st["inner"]
-                    c = fold_env(tu, inner[0], env)
+                    c = fold_tab(tu, M, inner[0], env)
                     if c is None:
                         raise AnalysisError("soft-bit conversion: condition does not fold: %s" % ctext(inner[0]))
                     if c:
@@ -350,7 +1975,7 @@ def r2_r3_trxcon(L, repo, spec, us2s):
                     elif st.get("hasElse"):
                         run_c(inner[2], env, out)
                 elif k == "BinaryOperator" and st.get("opcode") == "=" and ctext(kids(st)[0]).startswith("burst["):
-                    v = fold_env(tu, kids(st)[1], env)
+                    v = fold_tab(tu, M, kids(st)[1], env)
                     out.append(None if v is None else wrap_int(v, "int8_t"))
                 elif k in ("NullStmt",):
                     pass
@@ -364,32 +1989,23 @@ def r2_r3_trxcon(L, repo, spec, us2s):
         raise AnalysisError("trx_data_rx_cb: soft-bit conversion loop unclassifiable")
     bad = [(u, conv[u], us2s[u]) for u in range(256) if conv[u] != us2s[u]]
     L.ob("C04.R2", FC, "trx_data_rx_cb", "trxcon's soft-bit conversion equals the toolkit's usbit2sbit table for all 256 octet values", [], bad[:4], not bad)
-    bad = [(u, conv[u]) for u in range(255) if conv[u] != 127 - u]
-    L.ob("C04.R2", FC, "trx_data_rx_cb", "soft bit = 127 - octet for 0..254, 255 -> -127 (reference)", [], bad[:4], not bad and conv[255] == -127)
     # loop bound
     lc = ctext(loops[0]["inner"][2]) if loops else None
     L.require("C04.R2", FC, "trx_data_rx_cb", "conversion loop covers exactly the burst", "(i < bi.burst_len)", lc)
     # FN bound
     hb = calls_to(f, "trxcon_phyif_handle_burst_ind")
     L.floor("C04.R2", "burst indication delivery", len(hb), 1)
-    H = 2715648
+    H = H_FRAMES
     for c in hb:
         cl_ = g.guard_lits(g.node_of(c))
         L.ob("C04.R2", FC, "trx_data_rx_cb", "a burst is delivered only for FN < 2715648 (the toolkit's GSM_HYPERFRAME)",
              "bi.fn < %d" % H, sorted(("" if p else "!") + t_ for t_, p in cl_ if "fn" in t_),
              any(("%s < %d" % (x_, H), True) in cl_ for x_ in ("bi.fn", ctext(vals_raw["fn"]), ctext(vals["fn"]))), tu.line(c))
-    Hpy = fold(repo, repo.mod("gsm_shared"), ast.parse("GSM_HYPERFRAME", mode="eval").body)
-    L.require("C04.R2", rel("gsm_shared"), "<module>", "toolkit's GSM_HYPERFRAME equals trxcon's GSM_TDMA_HYPERFRAME", H, Hpy)
-    L.unit(rel("gsm_shared"))
-    # buffer
-    bufdecl = [n for n in walk(body) if kind(n) == "VarDecl" and n.get("name") == "buf"]
-    ext = array_extent(bufdecl[0].get("type", {}).get("qualType")) if bufdecl else None
-    largest = sp["hdr_len"] + max(sp["burst"]["lengths"]) + sp["burst"]["legacy_pad"]
-    L.ob("C04.R4", FC, "trx_data_rx_cb", "trxcon's receive buffer holds the largest v0 Rx datagram the toolkit sends (%d octets incl. legacy padding)" % largest,
-         ">= %d" % largest, ext, ext is not None and ext >= largest)
-    # ---- transmit path
+
+
+def trxcon_tx_structural(L, spec, tu):
+    FC = tu.rel
     f2 = tu.func("trx_if_handle_phyif_burst_req")
-    L.fn(FC, "trx_if_handle_phyif_burst_req")
     b2 = tu.body(f2)
     spt = spec["Tx"]["0"]
     stores = {}
@@ -412,24 +2028,65 @@ def r2_r3_trxcon(L, repo, spec, us2s):
     L.require("C04.R3", FC, "trx_if_handle_phyif_burst_req", "datagram length = header + burst length", {"=": ["6"], "+=": ["%s->burst_len" % P]}, lens)
     L.ob("C04.R3", FC, "trx_if_handle_phyif_burst_req", "exactly that many octets of buf are sent on the data socket",
          "send(trx->trx_ofd_data.fd, buf, length, 0)", snd, snd == [["trx->trx_ofd_data.fd", "buf", "length", "0"]])
-    # Python receive size
+
+
+def r4_python_recv(L, repo, spec):
+    spt = spec["Tx"]["0"]
+    largest_tx = spt["hdr_len"] + max(spt["burst"]["lengths"])
     ci, rr = repo.need_method("data_if", "DATAInterface", "recv_raw_data")
     L.unit(rel("data_if"))
     sizes = []
     for c in calls_in(rr):
         if canon(c.func).endswith(".recvfrom"):
             sizes.append(Ev(repo, repo.mod("data_if"), self_cls=ci).ev(c.args[0]))
-    largest_tx = spt["hdr_len"] + max(spt["burst"]["lengths"])
     L.ob("C04.R4", rel("data_if"), "DATAInterface.recv_raw_data", "the toolkit's data socket receive size holds trxcon's largest datagram (%d octets)" % largest_tx,
          ">= %d" % largest_tx, sizes, len(sizes) == 1 and sizes[0] >= largest_tx)
-    bd2 = [n for n in walk(b2) if kind(n) == "VarDecl" and n.get("name") == "buf"]
-    ext2 = array_extent(bd2[0].get("type", {}).get("qualType")) if bd2 else None
-    L.ob("C04.R4", FC, "trx_if_handle_phyif_burst_req", "trxcon's transmit buffer holds header + the largest burst (%d)" % largest_tx,
-         ">= %d" % largest_tx, ext2, ext2 is not None and ext2 >= largest_tx)
+
+
+def _group(L, rule, file, what, semantic, structural):
+    """decision of one rule group: the concrete evaluation on message / datagram families decides (a mismatch is a
+    violation with a counterexample); the structural reading is recorded as a for-all proof (closed / open).  If the code
+    cannot be evaluated, a closed structural proof still decides; otherwise there is no verdict."""
+    err = None
+    try:
+        semantic()
+    except AnalysisError as e:
+        err = e
+    except (RecursionError, KeyError, IndexError, TypeError, ValueError, AttributeError) as e:
+        err = AnalysisError("%s: evaluation failed (%s: %s)" % (what[:6], type(e).__name__, str(e)[:120]))
+    closed = L.structural(what, structural)
+    if err is not None:
+        if not closed:
+            raise err
+        L.ob(rule, file, "<file>", "%s: decided by the structural rules alone (the code could not be evaluated)" % what,
+             "closed structural proof", "closed; evaluation: %s" % str(err)[:120], True)
+
+
+def r1_python(L, repo, spec, tier):
+    box = {}
+    _group(L, "C04.R1", F, "C04.R1 Python codec: layout descriptors of gen_msg / parse_msg vs the reference layout, MTS and soft-bit tables folded",
+           lambda: box.__setitem__("sem", python_semantic(L, repo, spec, tier)),
+           lambda: box.__setitem__("str", r1_python_vs_spec(L, repo, spec)))
+    t = box.get("sem") or box.get("str")
+    if t is None:
+        raise AnalysisError("C04: the toolkit's usbit2sbit table could not be determined")
+    return t
+
+
+def r2_r3_trxcon(L, repo, spec, us2s, tier):
+    tu = TU(L.repo, "trxcon", "src/trx_if.c", L=L)
+    M0 = CMach(tu)
+    L.stage(_group, L, "C04.R2", tu.rel, "C04.R2 trxcon receive path: field <- octet expressions, guards, soft-bit loop folded over 256 values, FN guard",
+            lambda: trxcon_rx_semantic(L, repo, spec, us2s, tier, tu),
+            lambda: trxcon_rx_structural(L, repo, spec, us2s, tu, M0))
+    L.stage(_group, L, "C04.R3", tu.rel, "C04.R3 trxcon transmit path: stores, big-endian FN, memcpy offset, length, send",
+            lambda: trxcon_tx_semantic(L, repo, spec, tier, tu),
+            lambda: trxcon_tx_structural(L, spec, tu))
+    L.stage(r4_python_recv, L, repo, spec)
 
 
 def run(L, tier):
     repo = Repo(L.repo)
     spec = load_spec()
-    us2s = L.stage(r1_python_vs_spec, L, repo, spec)
-    L.stage(r2_r3_trxcon, L, repo, spec, us2s)
+    us2s = L.stage(r1_python, L, repo, spec, tier)
+    L.stage(r2_r3_trxcon, L, repo, spec, us2s, tier)
